@@ -1,0 +1,22 @@
+//go:build verif
+// +build verif
+
+package eth
+
+import "math/big"
+
+// VerifSealHook, when installed by a verification harness, decides the proof-of-work seal of synthetic headers
+// (Ethash seals cannot be mined offline); everything else in header verification stays real.
+var VerifSealHook func(h *Header) (skip bool, err error)
+
+// Exports of unexported header-rule functions for the verification harness.
+func VerifDifficultyCalculator(time *big.Int, parent *Header) *big.Int {
+	return difficultyCalculator(time, parent)
+}
+func VerifMakeDifficultyCalculator(bombDelay *big.Int) func(time uint64, parent *Header) *big.Int {
+	return makeDifficultyCalculator(bombDelay)
+}
+func VerifDatasetSize(block uint64) uint64 { return datasetSize(block) }
+func VerifCacheSize(block uint64) uint64   { return cacheSize(block) }
+func VerifIsLondon(h *Header) bool         { return isLondon(h) }
+func VerifIsArrowGlacier(h *Header) bool   { return isArrowGlacier(h) }
